@@ -38,7 +38,7 @@ def apply_patch(wt, patch):
 
 
 def worker(idx, ids, props, results):
-    vdir = Path(f"/work/rr-{idx}")
+    vdir = Path(f"/work/rr-{os.getpid()}-{idx}")
     sh(f"git -C {V} worktree remove --force {vdir}")
     rc, out = sh(f"git -C {V} worktree add -q --detach {vdir} HEAD")
     if rc != 0:
